@@ -152,13 +152,18 @@ class PhysicsStream(Stream):
         mod = m.solve(**info["kw"](d["args"]))
         return np.asarray(mod.S)[0]
 
+    header = None
+
+    def make_lemma(self, name, d):
+        return sample_lemma(name, d, self.observe(d))
+
     def custom_eval(self, descs, prefix):
+        LEMMA_HEADER = self.header or globals()["LEMMA_HEADER"]
         verdicts = [None] * len(descs)
         lemmas = {}
         for i, d in enumerate(descs):
             try:
-                S = self.observe(d)
-                lemmas[i] = sample_lemma(f"sample_{i}", d, S)
+                lemmas[i] = self.make_lemma(f"sample_{i}", d)
             except Exception as ex:
                 verdicts[i] = "ImplError"
         pending = sorted(lemmas)
